@@ -37,6 +37,40 @@ def fn_short(path):
     return path.replace('<', '').replace('>', '').replace(' as ', '/')
 
 
+def root_user_local(fl, op):
+    """index of the user-named local an operand is a plain copy/reference of (None if it is not one)"""
+    seen = set()
+    cur = op
+    for _ in range(12):
+        if cur['k'] == 'const':
+            return None
+        l = cur['p']['l']
+        if fl.body.local_name(l):
+            return l
+        if l in seen:
+            return None
+        seen.add(l)
+        ds = fl.defs.get(l, [])
+        if len(ds) != 1:
+            return None
+        bb, idx, kind, data, dproj = ds[0]
+        if kind == 'assign':
+            rv = data
+            if rv['k'] in ('use', 'cast') and rv['ops'][0]['k'] != 'const':
+                cur = rv['ops'][0]
+                continue
+            if rv['k'] == 'ref':
+                cur = {'k': 'copy', 'p': rv['p']}
+                continue
+            return None
+        c = callee(data)
+        if c in IDENTITY_CALLS and data['args'] and data['args'][0]['k'] != 'const':
+            cur = data['args'][0]
+            continue
+        return None
+    return None
+
+
 def root_name(fl, op):
     """A readable, line-free description of what an operand is: the user variable it
     derives from, else its origin kinds."""
@@ -365,3 +399,39 @@ def is_param_plus_suffix(F, fl, op, param, suffix):
 def is_plain_param(F, fl, op, param):
     b, p = path_shape(F, fl, op)
     return b == {('param', param)} and not p
+
+
+def fn_param_slot(F, body, o):
+    """1-based parameter index of the enclosing top-level fn for a 'param' origin of that fn, or for an 'upvar' origin of
+    an async block / closure nested in it (joined through the captured variable; the name is only the join key)."""
+    top = body.path.split('::{')[0]
+    tb = F.body(top)
+    if o.kind == 'param' and body.path == top:
+        return o.key
+    if o.kind == 'upvar' and o.key is not None and tb is not None:
+        name = body.upvars.get(int(o.key))
+        if name:
+            for i in range(1, tb.argc + 1):
+                if tb.local_name(i) == name:
+                    return i
+    return None
+
+
+def param_slots(F, body, os_):
+    """{slots} when every (non-combinator) origin is a parameter of the enclosing fn, else None."""
+    out = set()
+    os_ = [o for o in os_ if o.kind != 'comb']
+    if not os_:
+        return None
+    for o in os_:
+        s_ = fn_param_slot(F, body, o)
+        if s_ is None:
+            return None
+        out.add(s_)
+    return out
+
+
+def params_of_type(F, body, pred):
+    """slots of the enclosing top-level fn whose declared type satisfies pred(type string)"""
+    tb = F.body(body.path.split('::{')[0])
+    return [i for i in range(1, (tb.argc if tb else 0) + 1) if pred(tb.local_ty(i))]
